@@ -110,6 +110,16 @@ class _Date:
         return ("today%+d" % self.off) if self.ymd is None else self.ymd
 
 
+def _date_regex_literal(ctx):
+    lit = None
+    for name, f in ctx.prog.fns.items():
+        if name.startswith("util::datetime::DATE_REGEX") and "hir" in f:
+            for x in walk_exprs(f["hir"]):
+                if x["k"] == "Lit" and x["lk"] == "str":
+                    lit = x["v"]
+    return lit
+
+
 def _parse_datetime_scenarios(ctx):
     """(start, finish) of parse_datetime read off its source by the finite interpreter, with regex captures, chrono and
     chrono_english mocked by their contracts.  A datetime is (date key, h, m, s)."""
@@ -127,6 +137,21 @@ def _parse_datetime_scenarios(ctx):
         "2023-05-06 25": {1: "2023", 2: "-", 3: "05", 4: "-", 5: "06", 6: "25"},
         "last friday": None, "1 hour ago": None, "x": None,
     }
+    # the capture groups are those of the DATE_REGEX literal of the analysed tree, matched on the scenario text (the literal
+    # uses only syntax on which Python's and Rust's regex engines agree: digits classes, counted repetition, groups,
+    # alternation, optional groups; anything else is refused)
+    lit = _date_regex_literal(ctx)
+    cre = None
+    if lit is not None and re.fullmatch(r"[\\dws(){}\[\]|?:*+,\- 0-9A-Za-z^$.]*", lit) and not re.search(r"\(\?[^:]", lit):
+        try:
+            cre = re.compile(lit)
+        except re.error:
+            cre = None
+    if cre is None:
+        return {t: "undecided: the date regex literal %r cannot be read" % lit for t in scen}
+    for text in list(scen):
+        m_ = cre.search(text)
+        scen[text] = {i: g for i, g in enumerate(m_.groups(), 1) if g is not None} if m_ else None
     for text, groups in scen.items():
         def call(node, recv, args, it, env, text=text, groups=groups):
             callee = str(node.get("callee", ""))
@@ -150,7 +175,15 @@ def _parse_datetime_scenarios(ctx):
                 except ValueError:
                     return (interp.V("Result::Err", [interp.Opaque("parse error")]),)
             if m == "with_ymd_and_hms" and len(args) == 6 and all(isinstance(a, int) for a in args):
-                return (interp.V("LocalResult::Single", [{"__dt": ((args[0], args[1], args[2]),) + tuple(args[3:])}]),)
+                # chrono's contract: out-of-range fields give None; a wall-clock time is resolved through the time zone, and
+                # only local midnight is taken to resolve uniquely (the pinned tree's own assumption) -- any other time of day
+                # may fall into the hour repeated when the clocks go back, which chrono reports as Ambiguous
+                if not (1 <= args[1] <= 12 and 1 <= args[2] <= 31 and 0 <= args[3] <= 23 and 0 <= args[4] <= 59 and 0 <= args[5] <= 59):
+                    return (interp.V("LocalResult::None", []),)
+                dt = {"__dt": ((args[0], args[1], args[2]),) + tuple(args[3:])}
+                if tuple(args[3:]) == (0, 0, 0):
+                    return (interp.V("LocalResult::Single", [dt]),)
+                return (interp.V("LocalResult::Ambiguous", [dt, dict(dt)]),)
             if callee.endswith("Local::now") or callee.endswith("::now"):
                 return ({"__dt": ("today+0", 12, 30, 45), "__date": _Date()},)
             if m == "date_naive" and isinstance(recv, dict):
@@ -247,12 +280,13 @@ def r3(ctx):
     # year/month/day come from groups 1, 3, 5 in this order
     hir = ctx.anchor_hir(PARSE_DATETIME)
     locs = Locals(hir)
-    cs = [c for c in walk_exprs(hir) if c["k"] == "MCall" and c["m"] == "with_ymd_and_hms"]
-    if len(cs) != 1:
-        ctx.violation("anchor/ymd", PARSE_DATETIME, "with_ymd_and_hms call not found")
-    else:
+    cs = [c for c in walk_exprs(hir) if c["k"] == "MCall" and c["m"] in ("with_ymd_and_hms", "from_ymd_opt")] + \
+        [c for c in walk_exprs(hir) if c["k"] == "Call" and str(c.get("callee", "")).endswith("from_ymd_opt")]
+    if not cs:
+        ctx.violation("anchor/ymd", PARSE_DATETIME, "no call building the date from (year, month, day) found (with_ymd_and_hms / from_ymd_opt)")
+    for c0 in cs:
         idx = []
-        for a in cs[0]["args"][:3]:
+        for a in c0["args"][:3]:
             d = locs.chase(a)
             ix = [y for y in walk_exprs(d) if y["k"] == "Index" and peel(y["i"])["k"] == "Lit"]
             idx.append(peel(ix[0]["i"])["v"] if ix else None)
@@ -260,7 +294,7 @@ def r3(ctx):
         ctx.obligation(ok)
         ctx.covered("year/month/day capture indices", 3, distinct_keys=[str(idx)])
         if not ok:
-            ctx.violation("date-regex/ymd-order", ctx.where(PARSE_DATETIME, cs[0]),
+            ctx.violation("date-regex/ymd-order", ctx.where(PARSE_DATETIME, c0),
                           "year, month, day are read from capture groups %s, expected [1, 3, 5]" % idx)
     # output format
     fh = ctx.anchor_hir(FORMAT_DATETIME)
